@@ -47,3 +47,28 @@ package legacypool
 //@   atcall subTotalCost#1 assume types.txCost(old) <= old(u256val(l.totalcost))
 //@   modifies l.totalcost, l.costcap, l.gascap, l.txs.items[..], l.txs.cache, *l.txs.index
 //@   linear
+
+// The nonce index is a min-heap over uint64 driven by container/heap: its five interface methods
+// do what container/heap expects (exact functional postconditions, indices in range).
+//@ func (h nonceHeap) Len() (n int)
+//@   serves C41
+//@   ensures n == len(h)
+
+//@ func (h nonceHeap) Less(i, j int) (less bool)
+//@   serves C41
+//@   requires 0 <= i && i < len(h) && 0 <= j && j < len(h)
+//@   ensures less == (h[i] < h[j])
+
+//@ func (h nonceHeap) Swap(i, j int)
+//@   serves C41
+//@   requires 0 <= i && i < len(h) && 0 <= j && j < len(h)
+//@   modifies h[..]
+//@   ensures h[i] == old(h[j]) && h[j] == old(h[i])
+//@   ensures forall k int :: 0 <= k && k < len(h) && k != i && k != j ==> h[k] == old(h[k])
+
+//@ func (h *nonceHeap) Pop() (x interface{})
+//@   serves C41
+//@   requires len(*h) >= 1
+//@   modifies *h, (*h)[..]
+//@   ensures len(*h) == old(len(*h)) - 1
+//@   ensures forall k int :: 0 <= k && k < len(*h) ==> (*h)[k] == old((*h)[k])
